@@ -550,3 +550,149 @@ func terminatingFilter(c *core.Ctx) {
 		}
 	}
 }
+
+func init() {
+	addRule("C10", &core.Rule{ID: "C10.rule-binding", Floor: 10, Run: gwRuleBinding,
+		Doc: "Wiring of one admitted (listener, rule) of an HTTPRoute, as value identities: every backendRef of the rule is passed on; the backend is created for this route and `_rule<index of this rule>`; hosts are the listener/route host name filter of this listener and this route; paths are this rule's matches; hosts and paths are linked to the backend created for this rule and only when one was created. filterHostnames returns the route's names (or `*`) for an open listener and the listener's name otherwise. createBackend reads each backendRef's service in the route's namespace, its declared port, the ready endpoints, and skips refs without port, unknown services or ports."})
+}
+
+func gwRuleBinding(c *core.Ctx) {
+	fn := c.Fn("converters/gateway", "converter.syncHTTPRouteGateway")
+	if fn == nil {
+		return
+	}
+	var mkBack, mkHosts, filt *ssa.Call
+	for _, s := range core.Calls(fn, false) {
+		call, ok := s.Instr.(*ssa.Call)
+		if !ok {
+			continue
+		}
+		switch cn := core.CalleeName(s.Common()); {
+		case strings.HasSuffix(cn, "converter).createBackend"):
+			mkBack = call
+		case strings.HasSuffix(cn, "converter).createHTTPHosts"):
+			mkHosts = call
+		case strings.HasSuffix(cn, "converter).filterHostnames"):
+			filt = call
+		}
+	}
+	if mkBack == nil || mkHosts == nil || filt == nil {
+		c.Violated("syncHTTPRouteGateway anchors", c.Pos(fn.Pos()), "createBackend, createHTTPHosts or filterHostnames is not called")
+		return
+	}
+	ba := mkBack.Call.Args // c, source, index, backendRefs
+	c.Check(strings.HasSuffix(core.Key(ba[1]), "httpRouteSource.source"), "the backend belongs to this route", at(c, mkBack), "", "source is "+core.Key(ba[1]))
+	okIdx := false
+	if sp, ok := ba[2].(*ssa.Call); ok && core.CalleeName(&sp.Call) == "fmt.Sprintf" && core.IsConstString(sp.Call.Args[0], "_rule%d") {
+		// the formatted value is the index of the rules loop the call sits in
+		loop := core.InnermostLoop(fn, mkBack.Block())
+		if sl, ok := sp.Call.Args[1].(*ssa.Slice); ok && loop != nil {
+			if al, ok := sl.X.(*ssa.Alloc); ok {
+				for _, r := range *al.Referrers() {
+					ia, ok := r.(*ssa.IndexAddr)
+					if !ok {
+						continue
+					}
+					for _, r2 := range *ia.Referrers() {
+						if st, ok := r2.(*ssa.Store); ok {
+							v := st.Val
+							if mi, ok := v.(*ssa.MakeInterface); ok {
+								v = mi.X
+							}
+							// rangeindex: t = phi + 1 defined in the loop header
+							if bo, ok := v.(*ssa.BinOp); ok {
+								if ph, ok := bo.X.(*ssa.Phi); ok && ph.Block() == loop.Header {
+									okIdx = true
+								}
+							}
+							if ex, ok := v.(*ssa.Extract); ok {
+								if _, isNext := ex.Tuple.(*ssa.Next); isNext {
+									okIdx = true
+								}
+							}
+						}
+					}
+				}
+			}
+		}
+	}
+	c.Check(okIdx, "the backend is named after the index of this rule", at(c, mkBack), "", "index argument is not `_rule<index of the enclosing rules loop>`: "+core.Key(ba[2]))
+	// backendRefs: every element copied from this rule
+	okCopy := false
+	for _, b := range fn.Blocks {
+		for _, in := range b.Instrs {
+			st, ok := in.(*ssa.Store)
+			if !ok {
+				continue
+			}
+			ia, ok := st.Addr.(*ssa.IndexAddr)
+			if !ok || !strings.Contains(ia.X.Type().String(), "BackendRef") {
+				continue
+			}
+			k := core.Key(st.Val)
+			l := sliceLeaves(c.Env, st.Val, 0)
+			if (strings.Contains(k, ".BackendRefs[") || leavesContain(l, ".BackendRefs[")) && core.InnermostLoop(fn, b) != nil {
+				okCopy = ia.X == ba[3] || core.Key(ia.X) == core.Key(ba[3])
+			}
+		}
+	}
+	c.Check(okCopy, "every backendRef of the rule is passed to createBackend", at(c, mkBack), "", "the list given to createBackend is not filled from rule.BackendRefs in a loop")
+	// hosts
+	fa := filt.Call.Args
+	c.Check(strings.HasSuffix(core.Key(fa[1]), ".Hostname") && strings.Contains(core.Key(fa[1]), "Listeners[") || leavesContain(sliceLeaves(c.Env, fa[1], 0), "listener.Hostname"), "host names are filtered by this listener's host name", at(c, filt), "", "first argument "+core.Key(fa[1]))
+	c.Check(strings.HasSuffix(core.Key(fa[2]), "httpRouteSource.spec.Hostnames"), "host names come from this route", at(c, filt), "", "second argument "+core.Key(fa[2]))
+	ha := mkHosts.Call.Args // c, source, hostnames, matches, backend
+	c.Check(ha[2] == ssa.Value(filt), "hosts are created for the filtered names", at(c, mkHosts), "", "hostnames argument "+core.Key(ha[2]))
+	lm := sliceLeaves(c.Env, ha[3], 0)
+	c.Check(strings.HasSuffix(core.Key(ha[3]), ".Matches") || leavesContain(lm, ".Matches"), "paths are this rule's matches", at(c, mkHosts), "", "matches argument "+core.Key(ha[3]))
+	okB := false
+	if ex, ok := ha[4].(*ssa.Extract); ok && ex.Tuple == ssa.Value(mkBack) && ex.Index == 0 {
+		okB = true
+	}
+	c.Check(okB, "hosts and paths are linked to the backend created for this rule", at(c, mkHosts), "", "backend argument "+core.Key(ha[4]))
+	c.Check(guardedBy(mkHosts, has("createBackend(", "#0 != nil)"), true), "nothing is produced for a rule without backend", at(c, mkHosts), "", "createHTTPHosts is reachable with a nil backend")
+	// filterHostnames table
+	if ff := c.Fn("converters/gateway", "converter.filterHostnames"); ff != nil {
+		var open, listener int
+		for _, r := range core.Returns(ff) {
+			k := core.Key(core.Results(r)[0])
+			l := sliceLeaves(c.Env, core.Results(r)[0], 0)
+			switch {
+			case k == "routeHostnames":
+				open++
+			case leavesContain(l, "listenerHostname") || strings.Contains(k, "listenerHostname"):
+				listener++
+				ok := true
+				for _, g := range guardsOf(r) {
+					kk := core.StripVersion(g.Key)
+					if (strings.Contains(kk, "listenerHostname == nil") || strings.Contains(kk, `== "")`) || strings.Contains(kk, `== "*")`)) && g.Branch {
+						ok = false
+					}
+				}
+				c.Check(ok, "filterHostnames uses the listener's name only when it has a specific one", at(c, r), "", "the listener host name is returned on an `open listener` branch")
+			}
+		}
+		c.Check(open == 1 && listener == 1, "filterHostnames returns route names for an open listener and the listener name otherwise", c.Pos(ff.Pos()), "", fmt.Sprintf("%d / %d", open, listener))
+	}
+	// createBackend
+	if cb := c.Fn("converters/gateway", "converter.createBackend"); cb != nil {
+		for _, s := range core.Calls(cb, false) {
+			cc := s.Common()
+			if cc.IsInvoke() && cc.Method.Name() == "GetService" {
+				k := core.Key(cc.Args[1])
+				c.Check(strings.Contains(k, `routeSource.namespace + "/")`) && strings.Contains(k, ".Name"), "createBackend reads the backendRef's service in the route's namespace", at(c, s.Instr), "", "service name "+k)
+			}
+			if strings.HasSuffix(core.CalleeName(cc), "converters/utils.FindServicePort") {
+				l := sliceLeaves(c.Env, cc.Args[1], 0)
+				c.Check(leavesContain(l, ".Port") && strings.Contains(core.Key(cc.Args[0]), "GetService("), "createBackend resolves the backendRef's declared port in that service", at(c, s.Instr), "", "FindServicePort("+core.Key(cc.Args[0])+", "+leavesList(l)+")")
+			}
+			if strings.HasSuffix(core.CalleeName(cc), "converters/utils.CreateEndpoints") {
+				c.Check(strings.Contains(core.Key(cc.Args[1]), "GetService(") && strings.Contains(core.Key(cc.Args[2]), "FindServicePort("), "createBackend takes the endpoints of that service and port", at(c, s.Instr), "", "CreateEndpoints("+core.Key(cc.Args[1])+", "+core.Key(cc.Args[2])+")")
+			}
+		}
+		for _, a := range appendsTo(cb, "backends") {
+			ok := guardedBy(a, has(".Port == nil)"), false) && guardedBy(a, has("GetService(", "#1 != nil)"), false) && guardedBy(a, has("FindServicePort(", " == nil)"), false) && guardedBy(a, has("CreateEndpoints(", "#2 != nil)"), false)
+			c.Check(ok, "a backendRef becomes servers only with a port, a service, a known port and readable endpoints", at(c, a), "", "the group is recorded without passing all four tests")
+		}
+	}
+}
